@@ -27,6 +27,11 @@ def alphabet_of(*texts):
                         raise rx.RxError("hole in a concrete pattern")
             elif kind == "hole":
                 raise rx.RxError("hole in a concrete pattern")
+    # the other case of every letter written in the pattern: a case flag that is wrongly in force (or wrongly not)
+    # is only visible on such a character
+    for c in list(chars):
+        if c.isalpha():
+            chars.update(x for x in (c.lower(), c.upper()) if len(x) == 1)
     # order only matters for the witnesses: prefer an ordinary character, the line feed last
     return tuple(sorted(chars, key=lambda c: (c == "\n", c == "/", c != FRESH, c)))
 
